@@ -18,6 +18,7 @@ CONSTANTS
   AllowDupStart = FALSE
   AllowSilentInit = FALSE
   AllowRestartRace = FALSE
+  AllowLateStart = FALSE
   AllowDoubleError = FALSE
   SInsts = {}
   SIds = {}
@@ -44,6 +45,7 @@ CONSTANTS
   FixDup = TRUE
   FixDel = TRUE
   FixInit = TRUE
+  FixLate = TRUE
   PreAcked = TRUE
   Bursts = FALSE
   Sync = FALSE
